@@ -28,12 +28,21 @@ void *g_keep_utf8_cb = (void *)utf8_on_codepoint_contract; /* the address must b
     (__CPROVER_is_fresh((d), sizeof(*(d))) &&                                                                          \
      ((d)->on_codepoint == NULL || __CPROVER_obeys_contract((d)->on_codepoint, utf8_on_codepoint_contract)))
 
+/* ghost: the last update call seen by a caller that replaces update by its contract */
+size_t g_upd_calls;
+const uint8_t *g_upd_ptr;
+size_t g_upd_len;
+
 int aws_utf8_decoder_update(struct aws_utf8_decoder *decoder, struct aws_byte_cursor bytes)
 __CPROVER_requires(UTF8_DECODER_OK(decoder) && UTF8_STATE_OK(decoder))
 __CPROVER_requires((bytes.len == 0 && bytes.ptr == NULL) || __CPROVER_is_fresh(bytes.ptr, bytes.len))
 /* frame: nothing but the three state fields (and what the callback records) */
 __CPROVER_assigns(bytes.len > 0 : decoder->codepoint, decoder->min, decoder->remaining, g_cp_count, g_cp_last, g_cp_hash)
+__CPROVER_assigns(g_upd_calls, g_upd_ptr, g_upd_len)
 __CPROVER_ensures(RET == AWS_OP_SUCCESS || RET == AWS_OP_ERR)
+/* ghost record of the call (for callers that replace it; switched off when the body is checked) */
+__CPROVER_ensures(g_fin_track ==> g_upd_calls == OLD(g_upd_calls) + 1 && g_upd_ptr == bytes.ptr && g_upd_len == bytes.len)
+__CPROVER_ensures(!g_fin_track ==> g_upd_calls == OLD(g_upd_calls) && g_upd_ptr == OLD(g_upd_ptr) && g_upd_len == OLD(g_upd_len))
 __CPROVER_ensures(UTF8_STATE_OK(decoder))
 __CPROVER_ensures(bytes.len == 0 ==> RET == AWS_OP_SUCCESS)
 __CPROVER_ensures(decoder->on_codepoint == NULL ==> g_cp_count == OLD(g_cp_count) && g_cp_hash == OLD(g_cp_hash))
@@ -62,9 +71,11 @@ int aws_decode_utf8(struct aws_byte_cursor bytes, const struct aws_utf8_decoder_
 __CPROVER_requires((bytes.len == 0 && bytes.ptr == NULL) || __CPROVER_is_fresh(bytes.ptr, bytes.len))
 __CPROVER_requires(options == NULL || (__CPROVER_is_fresh(options, sizeof(*options)) &&
                    (options->on_codepoint == NULL || __CPROVER_obeys_contract(options->on_codepoint, utf8_on_codepoint_contract))))
-__CPROVER_assigns(g_cp_count, g_cp_last, g_cp_hash, g_fin_count, g_fin_ok)
+__CPROVER_assigns(g_cp_count, g_cp_last, g_cp_hash, g_fin_count, g_fin_ok, g_upd_calls, g_upd_ptr, g_upd_len)
 __CPROVER_ensures(RET == AWS_OP_SUCCESS || RET == AWS_OP_ERR)
 __CPROVER_ensures(bytes.len == 0 ==> RET == AWS_OP_SUCCESS)
+/* the one-shot form validates (and reports) the WHOLE text: exactly one update call, on exactly the given bytes */
+__CPROVER_ensures(g_fin_track ==> g_upd_calls == OLD(g_upd_calls) + 1 && g_upd_ptr == bytes.ptr && g_upd_len == bytes.len)
 /* a text is reported valid only after the end-of-text check (finalize) has been made and has passed */
 __CPROVER_ensures(g_fin_track && RET == AWS_OP_SUCCESS ==> g_fin_count == OLD(g_fin_count) + 1 && g_fin_ok)
 ;
